@@ -489,7 +489,7 @@ func ruleC09CacheKey(c *Ctx) {
 		allInstrs(g, func(_ *ssa.BasicBlock, in ssa.Instruction) {
 			if mu, ok := in.(*ssa.MapUpdate); ok {
 				if ld, ok := mu.Map.(*ssa.UnOp); ok {
-					if gl, ok := ld.X.(*ssa.Global); ok && gl.Name() == "cache" {
+					if gl, ok := ld.X.(*ssa.Global); ok && globalName(gl) == "cache" {
 						f, upd = g, mu
 					}
 				}
@@ -510,7 +510,7 @@ func ruleC09CacheKey(c *Ctx) {
 	allInstrs(f, func(_ *ssa.BasicBlock, in ssa.Instruction) {
 		if lk, ok := in.(*ssa.Lookup); ok {
 			if ld, ok := lk.X.(*ssa.UnOp); ok {
-				if gl, ok := ld.X.(*ssa.Global); ok && gl.Name() == "cache" {
+				if gl, ok := ld.X.(*ssa.Global); ok && globalName(gl) == "cache" {
 					lookups++
 					if tbd.Of(lk.Index).String() != kt.String() {
 						why = append(why, "the cache is looked up with "+tbd.Of(lk.Index).String()+" but filled under "+kt.String())
